@@ -229,9 +229,19 @@ def c14(run):
     law_pipeline(run, "C14", ["segonly", "prosonly"], 10 if run.tier == "thorough" else 5)
 
 
+def classify_c07(m):
+    """C07-KF1: alpha on stress, and the only differences are secondary stress marks that became primary"""
+    rule, before, after = m.get("rule", ""), m.get("word", ""), m.get("after", "")
+    norm = lambda w: w.replace("'", "\u02c8").replace(",", "\u02cc").replace(":", "\u02d0")
+    before = norm(before)
+    if "Astress" in rule and len(before) == len(after) and before != after and all(a == b or (b == "\u02cc" and a == "\u02c8") for a, b in zip(after, before)):
+        return "C07-KF1"
+    return None
+
+
 def c07(run):
     run.assumptions += TRUSTED
-    law_pipeline(run, "C07", ["identity"], 10 if run.tier == "thorough" else 5)
+    law_pipeline(run, "C07", ["identity"], 10 if run.tier == "thorough" else 5, classify_c07)
 
 
 def c08(run):
@@ -241,12 +251,54 @@ def c08(run):
     law_pipeline(run, "C08", ["any"], 10 if run.tier == "thorough" else 6)
 
 
+def _rule_parts(rule):
+    import re
+    m = re.split(r"\s(?:=>|->|>)\s", rule, maxsplit=1)
+    if len(m) < 2:
+        return None
+    inp, rest = m[0].strip(), m[1]
+    exc = ""
+    for sep in (" | ", " // "):
+        if sep in rest:
+            rest, exc = rest.split(sep, 1)
+            break
+    out, ctx = (rest.split(" / ", 1) + [""])[:2]
+    return {"inp": inp, "out": out.strip(), "ctx": ctx.strip(), "exc": exc.strip()}
+
+
+def classify_c02(m):
+    """signatures of the open C02 findings, evaluated on the failing vector (rule text, outcome, location)"""
+    parts = _rule_parts(m.get("rule", ""))
+    if not parts:
+        return None
+    out, det = m.get("outcome"), m.get("detail", "")
+    insertion = parts["inp"] in ("*", "\u2205")
+    if out == "budget" and insertion and any(det.endswith("site %d" % s) for s in (2, 21, 22, 23, 24)):
+        ctx = parts["ctx"]
+        envs = [e.strip() for e in ctx.replace(":{", "").replace("}:", "").split(",")]
+        def risky(env):
+            if "_" not in env:
+                return False
+            b, a = env.split("_", 1)
+            b, a = b.strip().rstrip("_ "), a.strip().lstrip("_ ")
+            return (a[:1] in ("$", "%", "#", "(")) or (b[-1:] in ("$", "#", ")")) or (b == "" and a == "")
+        if any(risky(e) for e in envs) or "$" in parts["out"] or "%" in parts["out"]:
+            return "C02-KF1"
+    if out == "panic" and "index out of bounds" in det and "@ word.rs" in det and insertion and parts["exc"]:
+        return "C02-KF2"
+    ells = ("...", "..", "\u2026")
+    if out == "panic" and ("index out of bounds" in det or "Segment Position should be within bounds" in det) and "@ subrule.rs" in det and not insertion \
+            and any(e in parts["inp"] for e in ells) and (parts["out"] not in ("*", "\u2205", "&") or parts["inp"].startswith(ells)):
+        return "C02-KF3"
+    return None
+
+
 def c02(run):
     run.assumptions += TRUSTED[:1] + ["step budget = 400 x (|word|+2)^(1+e) x (|rule|+2), e = number of ellipses/unbounded optionals/structures (capped at 3)",
                                       "raw character noise is produced by the harness, not by TLC (TLC is not a fuzzer); the specification only states what must hold of the executions"]
     mc_job(run, "MC_Scan", "mc/MC_Scan.tla", "mc/MC_Scan%s.cfg" % ("_thorough" if run.tier == "thorough" else ""),
            "M: the reference machine makes progress at every step and terminates (Progress, Terminates under weak fairness)")
-    law_pipeline(run, "C02", ["any"], 6 if run.tier == "thorough" else 4)
+    law_pipeline(run, "C02", ["any"], 12 if run.tier == "thorough" else 10, classify_c02)
 
 
 PROPS = {
